@@ -109,14 +109,14 @@ def Parametric (gpt : Nat → List PT → PT) : Prop :=
 for the cited lines) is a derivation satisfying the constructor invariant: `expand` succeeds, the
 checker accepts it, and the sequent it establishes is exactly the one `eval` reports. -/
 theorem default_eval_expand (evalRule : String → Nat → List Seq → Option Seq)
-    (ctx : ItemId → Option Seq) (pfx : ItemId) (gpt : Nat → List PT → PT) (hpar : Parametric gpt)
-    (args : Nat) (prevs : List (ItemId × Seq))
+    (ctx : ItemId → Option Seq) (pfx : ItemId) (restate : PT → PT) (gpt : Nat → List PT → PT)
+    (hpar : Parametric gpt) (args : Nat) (prevs : List (ItemId × Seq))
     (hnode : (gpt args (prevs.map fun p => PT.atom p.1 p.2)).isAtom = false)
     (hwf : PT.wf evalRule ctx pfx (gpt args (prevs.map fun p => PT.atom p.1 p.2)) = true) :
-    ∃ items, expandDefault sameStruct gpt pfx args prevs = .ok items ∧
+    ∃ items, expandDefault sameStruct restate gpt pfx args prevs = .ok items ∧
       checkItems evalRule ctx pfx items = .ok (evalDefault gpt args (prevs.map (·.2))) := by
   obtain ⟨items, h1, h2, _⟩ := export_check evalRule ctx pfx _ hnode hwf
-  refine ⟨items, h1, ?_⟩
+  refine ⟨items, by simp only [expandDefault, hnode]; exact h1, ?_⟩
   rw [h2]
   congr 1
   obtain ⟨tmpl, ht⟩ := hpar
@@ -136,6 +136,51 @@ example : Parametric exGpt ∧
     PT.wf exRule exCtx [3] (exGpt 0 ([([0], (⟨[1], 5⟩ : Seq))].map fun p => PT.atom p.1 p.2)) = true ∧
     evalDefault exGpt 0 [⟨[1], 5⟩] = ⟨[1], 7⟩ := by
   refine ⟨⟨fun _ _ => _, fun _ _ => rfl⟩, by decide, by decide, by decide⟩
+
+/-- `default_eval_expand_bare_premise`: the other case of the default `expand` — `get_proof_term`
+returns one of the premises unchanged (an atom).  If the restated derivation (`A --> A`, modus
+ponens) is a derivation satisfying the constructor invariant and states the premise's sequent, the
+expansion is produced, the checker accepts it, and it establishes exactly the sequent `eval`
+reports. -/
+theorem default_eval_expand_bare_premise (evalRule : String → Nat → List Seq → Option Seq)
+    (ctx : ItemId → Option Seq) (pfx : ItemId) (restate : PT → PT) (gpt : Nat → List PT → PT)
+    (hpar : Parametric gpt) (args : Nat) (prevs : List (ItemId × Seq))
+    (hatom : (gpt args (prevs.map fun p => PT.atom p.1 p.2)).isAtom = true)
+    (hnode : (restate (gpt args (prevs.map fun p => PT.atom p.1 p.2))).isAtom = false)
+    (hth : (restate (gpt args (prevs.map fun p => PT.atom p.1 p.2))).th =
+      (gpt args (prevs.map fun p => PT.atom p.1 p.2)).th)
+    (hwf : PT.wf evalRule ctx pfx (restate (gpt args (prevs.map fun p => PT.atom p.1 p.2))) = true) :
+    ∃ items, expandDefault sameStruct restate gpt pfx args prevs = .ok items ∧
+      checkItems evalRule ctx pfx items = .ok (evalDefault gpt args (prevs.map (·.2))) := by
+  obtain ⟨items, h1, h2, _⟩ := export_check evalRule ctx pfx _ hnode hwf
+  refine ⟨items, by simp only [expandDefault, hatom, if_true]; exact h1, ?_⟩
+  rw [h2, hth]
+  congr 1
+  obtain ⟨tmpl, ht⟩ := hpar
+  unfold evalDefault
+  rw [ht, ht]
+  have e1 : (prevs.map fun p => PT.atom p.1 p.2).map PT.th = prevs.map (·.2) := by
+    simp [List.map_map, Function.comp_def, PT.th]
+  have e2 : ((prevs.map (·.2)).map gapLeaf).map PT.th = prevs.map (·.2) := by
+    simp [List.map_map, Function.comp_def, PT.th, gapLeaf]
+  rw [e1, e2, List.map_map]
+  exact inst_th (fun p => PT.atom p.1 p.2) (gapLeaf ∘ (·.2)) (fun x => by simp [PT.th, gapLeaf]) prevs _
+/-- identity `get_proof_term` (returns its first premise) and the restating derivation over rules
+`asm`, `intr`, `mp` whose sequents are given by `exRule2` -/
+def exIdGpt : Nat → List PT → PT := fun _ pts => (Tmpl.prem 0).inst pts
+def exRule2 : String → Nat → List Seq → Option Seq
+  | "asm", 5, [] => some ⟨[5], 5⟩
+  | "intr", 5, [⟨[5], 5⟩] => some ⟨[], 9⟩
+  | "mp", 0, [⟨[], 9⟩, ⟨[1], 5⟩] => some ⟨[1], 5⟩
+  | _, _, _ => none
+def exRestate (a : PT) : PT :=
+  .node "mp" 0 [.node "intr" 5 [.node "asm" 5 [] ⟨[5], 5⟩] ⟨[], 9⟩, a] ⟨[1], 5⟩
+example : Parametric exIdGpt ∧
+    (exIdGpt 0 ([([0], (⟨[1], 5⟩ : Seq))].map fun p => PT.atom p.1 p.2)).isAtom = true ∧
+    PT.wf exRule2 exCtx [3] (exRestate (exIdGpt 0 ([([0], (⟨[1], 5⟩ : Seq))].map fun p => PT.atom p.1 p.2))) = true ∧
+    (expandDefault sameStruct exRestate exIdGpt [3] 0 [([0], ⟨[1], 5⟩)]).toOption.map List.length = some 3 ∧
+    evalDefault exIdGpt 0 [⟨[1], 5⟩] = ⟨[1], 5⟩ := by
+  refine ⟨⟨fun _ _ => _, fun _ _ => rfl⟩, by decide, by decide, by decide, by decide⟩
 
 /-! ### Table obligations over the regenerated macro registry (Gen.lean) -/
 
